@@ -44,6 +44,10 @@ ASSUMPTIONS = ['each command / each line step runs to completion while its threa
 # cases
 # ---------------------------------------------------------------------------
 
+# tools/check.py: a case cut off by its wall-clock limit is judged by oracle() here (sched.judge re-runs it with
+# generous limits and reports a hang only when that is inconclusive again), not by the generic rule
+JUDGES_HANG = True
+
 def _ops(cmds):
     return dict(kind='ops', cmds=cmds)
 
